@@ -108,6 +108,19 @@ static void pick_name(gen_t *g, uint8_t *nm, size_t *nl)
 static void walk(gen_t *g, binson_parser *p, const uint8_t *doc, size_t size, char root, bool hostile, int maxcalls)
 {
     track_t t; memset(&t, 0, sizeof t); t.fresh = true;
+    if (!hostile && maxcalls == -2) {
+        /* the nesting-limit documents: hand the deep container to to_writer / get_raw, then go on */
+        static const char *SCRIPT[] = {"n", "tw", "n", "raw", "n"};
+        if (!call_op(p, doc, size, root == 'O' ? "io" : "ia", NULL, 0, 0, &t)) return;
+        for (int i = 0; i < 5 && t.sp > 0; i++) {
+            const char *op = SCRIPT[i];
+            bool on_c = t.on == BINSON_TYPE_OBJECT || t.on == BINSON_TYPE_ARRAY;
+            if ((op[0] == 't' || op[0] == 'r') && !on_c) continue;
+            call_op(p, doc, size, op, NULL, 0, 0, &t);
+        }
+        while (!t.left && t.sp > 0) { if (!call_op(p, doc, size, t.stk[t.sp-1] == 'O' ? "lo" : "la", NULL, 0, 0, &t)) break; }
+        return;
+    }
     if (!hostile && maxcalls < 0) {
         /* FULL traversal (C03): enter every container, leave it when next says false */
         long guard = 0;
@@ -197,7 +210,7 @@ int main(int argc, char **argv)
         /* every document is verified first (C02 on every random / mutated document); a successful
          * verify leaves a fresh parser, so the walk below is unaffected */
         { track_t t0; memset(&t0, 0, sizeof t0); t0.fresh = true; call_op(p, doc, x.n, "v", NULL, 0, 0, &t0); }
-        walk(&g, p, doc, x.n, root, kind == 2, d < 10 ? 8 : (kind != 2 && rng_chance(&r, 1, 3)) ? -1 : 4 + (int) rng_below(&r, 60));
+        walk(&g, p, doc, x.n, root, kind == 2, d < 10 ? (d < 8 ? -2 : 8) : (kind != 2 && rng_chance(&r, 1, 3)) ? -1 : 4 + (int) rng_below(&r, 60));
         if (rng_chance(&r, 1, 3)) {           /* second pass on the same object after reset/verify (C12) */
             track_t t; memset(&t, 0, sizeof t); t.fresh = true;
             call_op(p, doc, x.n, rng_chance(&r, 1, 2) ? "v" : "rs", NULL, 0, 0, &t);
